@@ -9,11 +9,23 @@ From Morfuse Require Import C10.Model.
 Import ListNotations.
 Local Open Scope N_scope.
 
-Definition memN (x : N) (l : list N) : bool := existsb (N.eqb x) l.
-
 (* identities that ArchiveObject / ArchiveObjectPosition enter in the archive *)
+(* a script variable enters itself and the holder it creates *)
+Definition reg_tok {T} (t : tok T) : list N :=
+  t_vid t ::
+  match t_body t with
+  | TArrayNew hid _ _ _ _ _ => [hid]
+  | TConstArrayNew hid _ _ => [hid]
+  | TPointerNew pid _ => [pid]
+  | _ => []
+  end.
+
 Definition reg_leaf (l : leaf) : list N :=
-  match l with LPos id => [id] | _ => [] end.
+  match l with
+  | LPos id => [id]
+  | LVar _ toks => flat_map reg_tok toks
+  | _ => []
+  end.
 
 Definition reg_item (it : item) : list N :=
   match it with
@@ -23,9 +35,27 @@ Definition reg_item (it : item) : list N :=
 
 Definition registered (its : list item) : list N := flat_map reg_item its.
 
+Definition spec_tgt (reg : list N) (t : option N) : option N :=
+  match t with
+  | Some x => if memN x reg then Some x else None
+  | None => None
+  end.
+
+Definition spec_body (reg : list N) (b : tbody (option N)) : tbody (option N) :=
+  match b with
+  | TPtr k t => TPtr k (spec_tgt reg t)
+  | TPointerNew pid ts => TPointerNew pid (map (spec_tgt reg) ts)
+  | THolderRef k h => THolderRef k (spec_tgt reg h)
+  | _ => b
+  end.
+
+Definition spec_tok (reg : list N) (t : tok (option N)) : tok (option N) :=
+  mkTok (t_vid t) (spec_body reg (t_body t)).
+
 Definition spec_leaf (reg : list N) (l : leaf) : leaf :=
   match l with
   | LPtr s (Some t) => if memN t reg then l else LPtr s None
+  | LVar key toks => LVar key (map (spec_tok reg) toks)
   | _ => l
   end.
 
@@ -38,8 +68,23 @@ Definition spec_item (reg : list N) (it : item) : item :=
 Definition spec_items (its : list item) : list item := map (spec_item (registered its)) its.
 
 (* every non-null pointer target is archived somewhere in the sequence *)
+Definition targets_tgt (reg : list N) (t : option N) : bool :=
+  match t with Some x => memN x reg | None => true end.
+
+Definition targets_body (reg : list N) (b : tbody (option N)) : bool :=
+  match b with
+  | TPtr _ t => targets_tgt reg t
+  | TPointerNew _ ts => forallb (targets_tgt reg) ts
+  | THolderRef _ h => targets_tgt reg h
+  | _ => true
+  end.
+
 Definition targets_leaf (reg : list N) (l : leaf) : bool :=
-  match l with LPtr _ (Some t) => memN t reg | _ => true end.
+  match l with
+  | LPtr _ (Some t) => memN t reg
+  | LVar _ toks => forallb (fun t => targets_body reg (t_body t)) toks
+  | _ => true
+  end.
 
 Definition targets_item (reg : list N) (it : item) : bool :=
   match it with
@@ -55,14 +100,85 @@ Definition all_targets_archived (its : list item) : bool :=
 Definition wf_bytes (l : list N) : bool := forallb (fun b => b <? 256) l.
 Definition wf_cstr (l : list N) : bool := forallb (fun b => (0 <? b) && (b <? 256)) l.
 
+Definition wf_body (b : tbody (option N)) : bool :=
+  match b with
+  | TNone => true
+  | TStr bs => wf_bytes bs
+  | TPrim k v => v <? 256 ^ N.of_nat (vp_width k)
+  | TCStr None => true
+  | TCStr (Some bs) => wf_bytes bs
+  | TPtr _ _ => true
+  | TArrayNew _ rc tl thr tli count =>
+      (rc <? 4294967296) && (tl <? 4294967296) && (thr <? 4294967296) && (count <? 4294967296) &&
+      (tli <? 65536) && ((0 <? tl) || (count =? 0))
+  | TConstArrayNew _ rc size => (rc <? 4294967296) && (size <? 4294967296)
+  | TPointerNew _ _ => true
+  | THolderRef _ (Some _) => true
+  | THolderRef _ None => false
+  | TVector bs => wf_bytes bs && (nlen bs =? 12)
+  end.
+
+(* the token list is exactly one variable with everything it contains: [pend_after] counts
+   the variables still to come *)
+Fixpoint pend_after {T} (ts : list (tok T)) (p : N) : option N :=
+  match ts with
+  | [] => Some p
+  | t :: r => if p =? 0 then None else pend_after r (p - 1 + kids (t_body t))
+  end.
+
+Definition balanced {T} (ts : list (tok T)) : bool :=
+  match pend_after ts 1 with Some 0 => true | _ => false end.
+
 Definition wf_leaf (l : leaf) : bool :=
   match l with
   | LPrim KBoolean v => v <? 2
   | LPrim k v => v <? 256 ^ N.of_nat (pwidth k)
   | LRaw bs => wf_bytes bs
-  | LStr bs => wf_cstr bs
+  | LStr bs => wf_bytes bs
   | LPtr _ _ => true
   | LPos _ => true
+  | LVar key toks =>
+      match key with Some (Some k) => wf_bytes k | _ => true end &&
+      forallb (fun t => wf_body (t_body t)) toks && balanced toks
+  end.
+
+(* the token says "new holder" exactly when the writer finds the holder absent from
+   classpointerList (the host state a token list describes must be consistent) *)
+Definition cons_tok (cpl : list N) (t : tok (option N)) : bool :=
+  let cpl1 := fst (add_unique cpl (t_vid t)) in
+  match t_body t with
+  | TArrayNew hid _ _ _ _ _ => negb (memN hid cpl1)
+  | TConstArrayNew hid _ _ => negb (memN hid cpl1)
+  | TPointerNew pid _ => negb (memN pid cpl1)
+  | THolderRef _ (Some hid) => memN hid cpl1
+  | _ => true
+  end.
+
+Fixpoint cons_toks (cpl : list N) (ts : list (tok (option N))) : bool :=
+  match ts with
+  | [] => true
+  | t :: r => cons_tok cpl t && cons_toks (fst (write_tok cpl t)) r
+  end.
+
+Definition cons_leaf (cpl : list N) (l : leaf) : bool :=
+  match l with LVar _ toks => cons_toks cpl toks | _ => true end.
+
+Fixpoint cons_leaves (cpl : list N) (ls : list leaf) : bool :=
+  match ls with
+  | [] => true
+  | l :: r => cons_leaf cpl l && cons_leaves (fst (write_leaf cpl l)) r
+  end.
+
+Definition cons_item (cpl : list N) (it : item) : bool :=
+  match it with
+  | ILeaf l => cons_leaf cpl l
+  | IObj _ id body => cons_leaves (fst (add_unique cpl id)) body
+  end.
+
+Fixpoint cons_items (cpl : list N) (its : list item) : bool :=
+  match its with
+  | [] => true
+  | it :: r => cons_item cpl it && cons_items (fst (write_item cpl it)) r
   end.
 
 Definition wf_item (it : item) : bool :=
@@ -74,6 +190,30 @@ Definition wf_item (it : item) : bool :=
 (* number of bytes a leaf / an item occupies *)
 Definition size_str (bs : list N) : N := 12 + match bs with [] => 0 | _ => 4 + nlen bs end.
 
+Definition size_cstr (s : option (list N)) : N :=
+  match s with None => 5 | Some bs => 5 + size_str bs end.
+
+Definition size_body (b : tbody (option N)) : N :=
+  match b with
+  | TNone => 0
+  | TStr bs => size_str bs
+  | TPrim k _ => 4 + N.of_nat (vp_width k)
+  | TCStr s => size_cstr s
+  | TPtr _ _ => 8
+  | TArrayNew _ _ _ _ _ _ => 51
+  | TConstArrayNew _ _ _ => 29
+  | TPointerNew _ ts => 21 + 8 * nlen ts
+  | THolderRef _ (Some _) => 13
+  | THolderRef _ None => 0
+  | TVector bs => 3 * (4 + nlen bs)
+  end.
+
+Fixpoint size_toks (ts : list (tok (option N))) : N :=
+  match ts with [] => 0 | t :: r => 13 + size_body (t_body t) + size_toks r end.
+
+Definition size_key (key : option (option (list N))) : N :=
+  match key with None => 0 | Some k => size_cstr k end.
+
 Definition size_leaf (l : leaf) : N :=
   match l with
   | LPrim k _ => 4 + N.of_nat (pwidth k)
@@ -81,6 +221,7 @@ Definition size_leaf (l : leaf) : N :=
   | LStr bs => size_str bs
   | LPtr _ _ => 8
   | LPos _ => 8
+  | LVar key toks => size_key key + size_toks toks
   end.
 
 Fixpoint size_leaves (ls : list leaf) : N :=
@@ -96,7 +237,7 @@ Fixpoint size_items (its : list item) : N :=
   match its with [] => 0 | i :: r => size_item i + size_items r end.
 
 Definition wf_items (its : list item) : bool :=
-  forallb wf_item its && (size_items its <? 2147483648).
+  forallb wf_item its && (size_items its <? 2147483648) && cons_items [] its.
 
 Definition wf_hdr (h : hdr) : bool :=
   wf_cstr (h_magic h) && (h_version h <? 65536) && wf_cstr (h_name h) &&
